@@ -51,7 +51,25 @@ func civilForms(t ref.DT) (ymd, hms string, err error) {
 	if !strings.HasPrefix(hms, ymd+" ") {
 		return "", "", fmt.Errorf("%v: ToYmdHms()=%q does not start with ToYmd()=%q", t, hms, ymd)
 	}
+	// the same instant reached by stepping from an object that has already been printed prints the same
+	for _, k := range []int{1, -1, 3} {
+		if t.H-k < 0 || t.H-k > 23 {
+			continue
+		}
+		src := calendar.NewSolar(t.Y, t.M, t.D, t.H-k, t.Mi, t.S)
+		_, _ = src.ToYmdHms(), src.ToYmd()
+		if r := src.NextHour(k); r.ToYmdHms() != hms || r.ToYmd() != ymd || r.String() != ymd {
+			return "", "", fmt.Errorf("%v reached by NextHour(%d) from a printed %s prints %q / %q, built directly it prints %q", t, k, src.ToYmdHms(), r.ToYmdHms(), r.ToYmd(), hms)
+		}
+	}
 	return ymd, hms, nil
+}
+
+func abs(x int) int {
+	if x < 0 {
+		return -x
+	}
+	return x
 }
 
 func sign(x int64) int {
@@ -243,13 +261,42 @@ var chinese = ev.Register(&ev.P[dayCase]{
 		if err := unique("Lunar.String", s, civil); err != nil {
 			return err
 		}
+		// other dates are rendered in between: the month twelve-minus-k of the neighbouring year for month k (where a
+		// leap month, written with a negative number, is the usual source of mixed-up keys), the same day a month
+		// and a year away
+		var relatives []*calendar.Lunar
+		for _, r := range [][3]int{{ly - 1, 12 - abs(lm), ld}, {ly + 1, -(12 - abs(lm)), ld}, {ly, -lm, ld}, {ly + 1, lm, ld}, {ly, abs(lm)%12 + 1, ld}} {
+			func() {
+				defer func() { _ = recover() }() // the relative need not exist
+				if r[0] < 1 || r[0] > 9998 || r[1] == 0 {
+					return
+				}
+				x := calendar.NewLunar(r[0], r[1], r[2], 0, 0, 0)
+				relatives = append(relatives, x)
+				_ = x.String()
+			}()
+		}
+		if again := l.String(); again != s {
+			return fmt.Errorf("lunar %s: String() gives %q, and %q after other dates were printed", key, s, again)
+		}
 		tao, foto := l.GetTao(), l.GetFoto()
+		taoText, fotoText := tao.ToString(), foto.ToString()
+		for _, x := range relatives { // each rendering of a relative is directly followed by the date's own, per calendar
+			_ = x.GetTao().ToString()
+			if again := tao.ToString(); again != taoText {
+				return fmt.Errorf("Tao date of lunar %s prints %q, and %q right after the Tao date of lunar %d/%d/%d was printed", key, taoText, again, x.GetYear(), x.GetMonth(), x.GetDay())
+			}
+			_ = x.GetFoto().ToString()
+			if again := foto.ToString(); again != fotoText {
+				return fmt.Errorf("Foto date of lunar %s prints %q, and %q right after the Foto date of lunar %d/%d/%d was printed", key, fotoText, again, x.GetYear(), x.GetMonth(), x.GetDay())
+			}
+		}
 		for _, x := range []struct {
 			kind string
 			text string
 			year int
 			alt  []string
-		}{{"Tao", tao.ToString(), tao.GetYear(), []string{tao.String()}}, {"Foto", foto.ToString(), foto.GetYear(), []string{foto.String()}}} {
+		}{{"Tao", taoText, tao.GetYear(), []string{tao.String()}}, {"Foto", fotoText, foto.GetYear(), []string{foto.String()}}} {
 			qy, qm, qd, err := parse(x.text)
 			if err != nil {
 				return fmt.Errorf("%s date of lunar %s: %v", x.kind, key, err)
